@@ -52,10 +52,8 @@ def run_world(w, plan=None, sched=None, timeout=120, keep=False, scans_override=
 
 def prepare_links(w, btree, scans_override=None):
     """Where the tool itself resolves symbolic links: export files (opened by path) and scan roots (the walk follows
-    its root).  A link below another scan directory is NOT followed by that directory's walk, so a world in which a
-    scan directory lies above a linked scan root loses the linked root (the model file system has one spelling per
-    walk).  Returns (arguments for worldgen.snapshot, the possibly reduced scans_override); may reduce w.scans."""
-    links = [rel for rel, what in w.files.items() if what[0] == "symlink" and len(rel) == 1 and rel[0].startswith(b"lnk")]
+    its root).  Returns (arguments for worldgen.snapshot, scans_override)."""
+    links = [rel for rel, what in w.files.items() if what[0] == "symlink" and rel[-1].startswith(b"lnk")]
 
     def rel_of(s):
         if isinstance(s, tuple):
@@ -64,15 +62,10 @@ def prepare_links(w, btree, scans_override=None):
             comps = [c for c in s[len(btree):].split(b"/") if c]
             return None if any(c in (b".", b"..") for c in comps) else tuple(comps)
         return None
+    # a link is followed (by the tool's walk, hence by the snapshot) exactly when it is itself a scan root or lies on the
+    # way to one; a walk that starts ABOVE the link skips it, but what lies below the link is then registered by the
+    # link's own walk, so the registered set - a union over the scan roots - is the same
     cur = list(scans_override) if scans_override is not None else list(w.scans)
-    for r in links:
-        rels = [rel_of(s) for s in cur]
-        if any(x is not None and x == r[:len(x)] and len(x) < len(r) for x in rels):
-            cur = [s for s, x in zip(cur, rels) if x is None or x[:len(r)] != r]
-    if scans_override is not None:
-        scans_override = cur
-    else:
-        w.scans = cur
     links = [r for r in links if any(x is not None and x[:len(r)] == r for x in [rel_of(s) for s in cur])]
     return (tuple(w.export), links), scans_override
 
